@@ -773,6 +773,11 @@ impl LightClientProtocol {
 
         let now = unix_time_as_millis();
         let last_hash = tip_header.calc_header_hash();
+        // The blocks proof request of a peer is also used to prove the matched blocks, by the
+        // handlers of the other protocols (while they hold this lock): finding an idle peer and
+        // registering the request must not interleave with them, otherwise both send a request to
+        // the same peer and the response to the forgotten one is an unexpected response.
+        let matched_blocks_guard = self.peers.matched_blocks().read().expect("poisoned");
         for block_hashes in self
             .peers
             .get_headers_to_fetch()
@@ -813,6 +818,7 @@ impl LightClientProtocol {
                 break;
             }
         }
+        drop(matched_blocks_guard);
 
         for tx_hashes in self
             .peers
